@@ -106,7 +106,60 @@ pub fn judge(input: &[u8], acc: &mut Acc) {
     }
 }
 
+/// Truncations of headers whose payload is structured: every prefix of every embedded structured / grid TLV
+/// header (<= 400 bytes), and the same present bytes under an inflated declared length (byte-swapped present
+/// count, present+1, 2 x present, 4096, 65535) -- "the part that arrived looks complete under another reading".
+pub struct StructuredTruncations {
+    list: crate::universe::ListUniverse,
+}
+
+impl StructuredTruncations {
+    pub fn new() -> Self {
+        StructuredTruncations { list: u2::tlv_structured_universe(false) }
+    }
+}
+
+impl Universe for StructuredTruncations {
+    fn name(&self) -> String {
+        "U17-structured-truncations".into()
+    }
+    fn bound(&self) -> serde_json::Value {
+        serde_json::json!({"mode": "every prefix of every structured TLV header (sections <= 300 bytes, 3 families), and the whole present part under 5 inflated declared lengths"})
+    }
+    fn units(&self) -> usize {
+        3 * 64
+    }
+    fn roots(&self) -> u64 {
+        3
+    }
+    fn run_unit(&self, u: usize, f: &mut dyn FnMut(&[u8])) {
+        let family = (u / 64) as u8 + 1;
+        let part = u % 64;
+        let mut buf = Vec::new();
+        for (i, section) in self.list.cases.iter().enumerate() {
+            if i % 64 != part || section.len() > 300 || !super::c11::embed(family, section, &mut buf) {
+                continue;
+            }
+            let whole = buf.clone();
+            for n in 0..whole.len() {
+                f(&whole[..n]);
+            }
+            let present = whole.len() - 16;
+            let swapped = ((present & 0xff) << 8) | (present >> 8);
+            for declared in [swapped, present + 1, 2 * present, 4096, 65535] {
+                if declared > present && declared <= 65535 {
+                    let mut x = whole.clone();
+                    x[14] = (declared >> 8) as u8;
+                    x[15] = declared as u8;
+                    f(&x);
+                }
+            }
+        }
+    }
+}
+
 pub fn run(run: &Run) {
+    run.explore(&StructuredTruncations::new());
     run.explore(&u2::LenUniverse { presents: u2::Presents::EveryUpTo(run.tier.pick(1024, 4096)), name: "U2-len/every-cut" });
     run.explore(&u2::CtlUniverse);
     run.explore(&u2::sig_universe());
